@@ -38,6 +38,8 @@ try:
     res["check_concrete"] = any(l.startswith("VIOLATION") and "no-failing-input-found" not in l for l in lines)
 finally:
     shutil.rmtree(d, ignore_errors=True)
+    # Generated/*.lean back to what /repo says (the check above regenerated them from the scratch copy)
+    subprocess.run([str(ROOT / "check"), "--regen"], cwd=ROOT, capture_output=True, env={k: v for k, v in os.environ.items() if k != "VERIF_REPO"})
 confirmed = res.get("demo_unchanged_exit") == 0 and res.get("patch_applied") and res.get("demo_changed_exit") == 1 and res.get("baseline_ok")
 print(json.dumps(res, indent=1))
 print("CONFIRMED" if confirmed else "NOT CONFIRMED", "| caught" if res.get("check_exit") == 1 else "| MISSED by check")
